@@ -1,0 +1,11 @@
+//go:build verif
+
+package forkable
+
+import "github.com/streamingfast/bstream"
+
+// VerifNewForkableObject builds a ForkableObject with the given (unexported) step and cursor fields.
+// Only compiled with the `verif` build tag; used by the external verification harness.
+func VerifNewForkableObject(step bstream.StepType, block, head, lib, junction bstream.BlockRef) *ForkableObject {
+	return &ForkableObject{step: step, block: block, headBlock: head, lastLIBSent: lib, reorgJunctionBlock: junction}
+}
